@@ -1,10 +1,10 @@
 SPECIFICATION Spec
 CONSTANTS
   Asyncs = {"a1", "a2", "a3"}
-  Values = {"v1", "v2"}
+  Values = {"v1"}
   MaxSteps = 4
   RestoreOnDrop = TRUE
   IsolateSiblings = TRUE
-  Faults = FALSE
+  Faults = TRUE
 INVARIANT FakedOnlyWhileAlive LastFakeWins Emit
 CHECK_DEADLOCK FALSE
